@@ -14,6 +14,7 @@ mod c03;
 mod c16;
 mod c20;
 mod c11;
+mod c05;
 
 use util::*;
 
@@ -92,6 +93,8 @@ fn main() {
     "C19" => c03::run_c19(&mut out, &mut rng, thorough),
     "C16" => c16::run(&mut out, &mut rng, thorough),
     "C11" => c11::run(&mut out, &mut rng, thorough),
+    "C05" => c05::run(&mut out, &mut rng, thorough, "C05"),
+    "C06" => c05::run(&mut out, &mut rng, thorough, "C06"),
     "C08" => c07::run_c08(&mut out, &mut rng, thorough),
     _ => { eprintln!("unknown property {}", prop); std::process::exit(2); }
   }
